@@ -96,6 +96,12 @@ func (f changeFinder) changed() {
 func (f changeFinder) commentsFor(n *value) (before, after []*ast.Comment) {
 	pos, end := n.Pos(), n.End()
 	for _, cg := range n.Comments {
+		if len(cg.List) == 0 {
+			// Every comment of this group was removed while cleaning up
+			// after an earlier change: it has no position anymore.
+			continue
+		}
+
 		if cg.End() <= pos {
 			before = append(before, cg.List...)
 		}
